@@ -1,5 +1,7 @@
 """C10 — every response carries the hardening and no-cache headers, each exactly once."""
+import os, random
 from .servebase import *
+import netprobe, vlib
 
 REQUIRED = [("X-Content-Type-Options", lambda v: v == "nosniff"), ("X-Frame-Options", lambda v: v == "SAMEORIGIN"),
             ("Cache-Control", lambda v: "no-store" in v and "no-cache" in v), ("Accept-Ranges", lambda v: v == "bytes"),
@@ -16,7 +18,49 @@ class P(ServeProp):
             "preflight headers x CORS configuration; 35% of the requests damaged by structure-aware mutation (truncation, byte substitution incl. "
             "NUL/CR/LF/non-UTF-8, insertion, deletion, numeric junk, hundreds of header lines); 5% through a handler that reports an error. "
             "Oracle (implementation only): every response written has each of the six headers exactly once with the required value. "
-            "Non-trivial = a response whose status is not 404, distinct by case line.")
+            "Non-trivial = a response whose status is not 404, distinct by case line.  Real binary on loopback with 1 and 2 workers: a sequence "
+            "of requests of every kind on the same workers - the n-th response of a worker carries the headers like its first.")
+
+    # ---- the real binary: every response, not only a worker's first ----
+    def extra(self, tier, seed, work, notes):
+        fails = []
+        rnd = random.Random(seed * 32452843 + 10)
+        try:
+            exe = vlib.build_binary()
+        except vlib.Infra as e:
+            notes.append("campaign: skipped (%s)" % str(e)[:100])
+            return {"failures": [], "coverage": {"campaign": "skipped"}}
+        base = os.path.join(work, "net10"); os.makedirs(base, exist_ok=True)
+        root = netprobe.make_root(base)
+        reqs = [b"GET /a.txt HTTP/1.1\r\nHost: localhost\r\n\r\n", b"GET / HTTP/1.1\r\n\r\n", b"HEAD /a.txt HTTP/1.1\r\n\r\n", b"OPTIONS /a.txt HTTP/1.1\r\nOrigin: https://foo.example\r\n\r\n",
+                b"GET /a.txt HTTP/1.1\r\nRange: bytes=2-5\r\n\r\n", b"GET /a.txt HTTP/1.1\r\nRange: bytes=0-1,3-4\r\n\r\n", b"GET /missing HTTP/1.0\r\n\r\n", b"GET /style.css HTTP/1.1\r\n\r\n",
+                b"GET /form-get-method?a=1 HTTP/1.1\r\n\r\n", b"POST /form-url-encoded-enctype-post-method HTTP/1.1\r\nContent-Type: application/x-www-form-urlencoded\r\n\r\na=1",
+                b"\xff\xfe\r\n\r\n", b"GET x HTTP/1.1\r\n\r\n", b"GET /a.txt HTTP/1.1\r\nRange: bytes=9-2\r\n\r\n", b"FOO / HTTP/1.1\r\n\r\n", b"GET /../a.txt HTTP/1.1\r\n\r\n"]
+        checked = 0
+        for N in ([1, 2] if tier == "quick" else [1, 2, 3, 8]):
+            try:
+                s = netprobe.Server(exe, root, threads=N)
+            except Exception as e:
+                notes.append("campaign: server did not start (%s)" % e)
+                return {"failures": fails, "coverage": {"campaign": "skipped: bind failed", "sequential_responses_checked": checked}}
+            try:
+                seq = [rnd.choice(reqs) for _ in range(25 if tier == "quick" else 200)]
+                for i, r in enumerate(seq):
+                    got = s.request(r, timeout=5.0)
+                    if not got:
+                        continue          # an unanswered connection is C04's concern
+                    sig = self.oracle("", "W " + got.hex())
+                    checked += 1
+                    if sig:
+                        fails.append(("response number %d of a server with %d worker(s): %s" % (i + 1, N, sig), sig, None,
+                                      {"threads": N, "position_in_sequence": i + 1, "request": r[:200].decode("latin-1"), "earlier_requests": [x[:60].decode("latin-1") for x in seq[:i]][-5:],
+                                       "received_head": got.split(b"\r\n\r\n")[0][:1200].decode("latin-1")}))
+                        break
+            finally:
+                s.stop()
+            if fails:
+                break
+        return {"failures": fails, "coverage": {"campaign": "real binary on loopback", "sequential_responses_checked": checked}}
 
     def gen(self, rnd, tier, n):
         out = []
